@@ -28,7 +28,9 @@ const rule = "case = rapid-drawn (primary engine config with a 1-4 KiB or 32 MiB
 	"over put/delete/multi-key transaction/explicit flush; phase kinds: burst 1-30 ops, big 101-160 ops, bulk 100-160 puts of 11-33 KB followed by a " +
 	"replica join or restart, trickle 1-2 ops after 1.3-2.5 s of idleness, and as last phase 1-5 writes after 3-6 s of idleness with a connected replica; " +
 	"a pause of 0-1.5 s after each other phase; in 1/7 of the cases the shape aged_burst: replica connected before 2-12 early writes, 15-22 s of silence (quick tier: 15-16 s), " +
-	"then a burst of 150-400 single-key writes; in 1/4 of the other cases one replica that joins late or replays after a restart gets ONE transient error from its " +
+	"then a burst of 150-400 single-key writes; in 1/5 of the cases the shape hot_phase: 2000-4000 back-to-back single-key writes while two replicas " +
+	"with a 20-50 ms reconnect delay open streams (streaming and reconnecting after every batch, joining during the burst, or stopped and restarted " +
+	"during it); a primary write that does not return within 30 s is the violation primary-write-blocked; in 1/4 of the other cases one replica that joins late or replays after a restart gets ONE transient error from its " +
 	"storage on a drawn non-first entry of its first multi-entry catch-up message; default or 200 ms / 1 s heartbeat; 1-2 replicas each with a join boundary " +
 	"(before, between or after the write phases) and optionally a stop+close / reopen+restart pair of boundaries on the same directory); " +
 	"executed in a child process with real engines and replication.Manager on both sides over loopback TCP; " +
